@@ -55,7 +55,7 @@ def cases(tier, seed):
         out.append({"family": "s2s", "pair": list(pair), "nops": 60, "directed": "reassemble_after_steps"})
     i = 0
     while len(out) < n:
-        r = i % 20
+        r = i % 24
         i += 1
         nops = int(rng.integers(20, 301))
         if r < 5:
@@ -66,9 +66,11 @@ def cases(tier, seed):
                         "nops": int(rng.integers(15, 70))})
         elif r < 15:
             out.append({"family": "s2s", "pair": list(S2S_PAIRS[int(rng.integers(len(S2S_PAIRS)))]), "nops": nops})
-        elif r < 19:
+        elif r < 18:
             out.append({"family": "mesh", "degree": int(rng.integers(1, 4)), "nel": int(rng.integers(1, 5)),
                         "basis": ["Lagrange", "Lagrange_Disc"][int(rng.integers(2))], "nops": nops})
+        elif r < 22:
+            out.append({"family": "system"})
         else:
             out.append({"family": "sim", "scene": ["two_balls", "chain", "rod", "contact_scene", "contact_scene"][int(rng.integers(5))]})
     return out
@@ -548,7 +550,53 @@ def worker_init(tier, seed):
     ct.install()
 
 
-RUNNERS = {"rigid_body": run_rigid_body, "rod": run_rod, "s2s": run_s2s, "mesh": run_mesh, "sim": run_sim}
+def run_system(spec, ctx, ct, log):
+    """random real systems of all contribution kinds (joints, force laws, actuators, contacts, rods with joints and loads on
+    rigid bodies): every system-level quantity is evaluated, then evaluated again at the SAME state in another order. Whatever
+    a contribution does with the arrays it receives from a memoised method (e.g. updating them in place) shows up as a
+    difference between the memoised value and the un-memoised twin at the next hit."""
+    from vlib.props import c14
+    rng = ctx.rng
+    with gen.quiet(), warnings.catch_warnings():
+        warnings.simplefilter("ignore")
+        system, comp = c14._build_random_system(rng, ctx)
+        try:
+            system.assemble(options=gen.no_cic_options())
+        except Exception as e:
+            ctx.undecided(f"assemble: {type(e).__name__}")      # C14's subject
+            return {"family": "system", "composition": comp}
+        names = list(c14.VEC) + list(c14.MAT)
+        for k in range(2):
+            t = system.t0 + float(rng.normal())
+            q, u, ud, _ = gen.random_system_state(rng, system, perturb=0.3)
+            lam = {"la_g": rng.normal(size=system.nla_g), "la_c": rng.normal(size=system.nla_c), "la_N": rng.normal(size=system.nla_N), "la_F": rng.normal(size=system.nla_F)}
+            for rep in range(3):
+                order = names if rep == 0 else [names[int(i)] for i in rng.permutation(len(names))]
+                for name in order:
+                    spec_ = c14.VEC.get(name) or c14.MAT[name]
+                    try:
+                        getattr(system, name)(*c14._args(spec_[0], None, t, q, u, ud, lam, True))
+                    except NotImplementedError:
+                        pass
+                    except Exception as e:
+                        ctx.count(f"system_evaluation_raised:{type(e).__name__}")
+                log.add(f"evaluate_all(state {k}, pass {rep})")
+            if k == 0 and rng.random() < 0.5:
+                log.add("system_step_callback"); log.state_ops += 1
+                system.step_callback(t, q.copy(), u.copy())
+                ctx.mon("STATE:step_callback")
+        if rng.random() < 0.5:
+            log.add("reassemble"); log.state_ops += 1
+            system.assemble(options=gen.no_cic_options())
+            ctx.mon("STATE:reassemble")
+            getattr(system, "M")(t, q); system.h(t, q, u)
+    for c in comp:
+        ctx.cls("system_contr:" + c.split(":")[0])
+    log.state_ops += 1      # evaluation histories at an unchanged state are the point of this family
+    return {"family": "system", "composition": comp}
+
+
+RUNNERS = {"system": run_system, "rigid_body": run_rigid_body, "rod": run_rod, "s2s": run_s2s, "mesh": run_mesh, "sim": run_sim}
 
 
 def run_case(spec, ctx):
